@@ -9,6 +9,7 @@ import DesyncModel.Inv.JobReach
 import DesyncModel.Inv.RunReach
 import DesyncModel.Inv.OwnedReach
 import DesyncModel.Inv.JobMono
+import DesyncModel.Inv.WatchReach
 
 namespace Desync.C03
 open Desync Gen
@@ -118,5 +119,73 @@ keeps every job of the table, with the same kind (the same closure / future) and
 or finished — forever. -/
 theorem job_table_only_grows {s s' : State} {a : Nat} {o : Obs} (hs : stepAct s a = some (s', o)) : JobMono s s' :=
   jobMono_stepAct hs
+
+
+/-! ### the schedule is never left unwatched (the pool half of "runs without any further API call being needed") -/
+
+/-- **I_watch.**  In every state reachable without a maximum of zero being configured: if a queue is on the schedule then
+some pool thread is busy and has not yet decided to go to sleep (it will look at the schedule again before it does), or a
+`schedule_thread` call is under way that has found every thread it passed in that condition (and will spawn a thread or hand
+the work to an idle one).  This is the invariant the defect F2 (a held busy flag treated as "busy") violated: the proof
+uses the generated fact `dormantScanBlocks` (the scan waits for a held flag), so reverting that repair breaks it. -/
+theorem scheduled_queue_is_watched {s : State} (hr : ReachableNZ s) (hne : s.schedule ≠ []) :
+    (∃ p, Watching s p) ∨ (∃ a, GoodSt s a) :=
+  (watchInv_reachable hr).sched hne
+
+/-- a watching thread that is waiting for a message has one in its mailbox: it is not asleep for good -/
+theorem watching_thread_is_not_asleep {s : State} (hr : ReachableNZ s) {p w : Nat} {pt : PThr} (hp : s.pthreads[p]? = some pt) (hb : pt.busy = true)
+    (hw : s.po w = some p) (hrest : (s.cl w).rest = true) : 0 < pt.mailbox :=
+  (watchInv_reachable hr).thr.restOk w p pt hw hp hb hrest
+
+/-- **Quiet pool, empty schedule.**  When no `schedule_thread` call, no pool resizing and no pool-thread work is in
+progress — every activity is outside the pool code or is a pool thread waiting for a message — and no message is in flight,
+nothing is left on the schedule. -/
+theorem quiet_pool_has_empty_schedule {s : State} (hr : ReachableNZ s)
+    (hq : ∀ a, s.cl a = .neutral ∨ (s.cl a).rest = true) (hm : ∀ (p : Nat) (pt : PThr), s.pthreads[p]? = some pt → pt.mailbox = 0) : s.schedule = [] := by
+  have hinv := watchInv_reachable hr
+  cases hs : s.schedule with
+  | nil => rfl
+  | cons q rest =>
+    exfalso
+    rcases hinv.sched (by rw [hs]; simp) with ⟨p, pt, w, h1, h2, h3, h4⟩ | ⟨a, hg⟩
+    · rcases hq w with h5 | h5
+      · rcases poolOf_cls _ p h3 with ⟨ph, h6⟩ | ⟨ph, h6⟩
+        · simp only [State.cl] at h5; rw [h5] at h6; cases h6
+        · simp only [State.cl] at h5; rw [h5] at h6; cases h6
+      · have := hinv.thr.restOk w p pt h3 h1 h2 h5
+        rw [hm p pt h1] at this; omega
+    · rcases hq a with h5 | h5
+      · exact good_ne_neutral hg h5
+      · unfold GoodSt at hg
+        split at hg <;> simp_all [PCls.rest]
+
+/-- the premises of `quiet_pool_has_empty_schedule` and `scheduled_queue_is_watched` are satisfiable: a pool of one thread
+that has been handed a queue -/
+def watchedExample : State :=
+  let s0 := initState 1 0 1
+  { s0 with
+    schedule := [0]
+    pthreads := [{ busy := true, busyLock := none, mailbox := 1, hungUp := false, exited := false }]
+    threadsVec := [0]
+    acts := [{ thread := 1000, pc := .ptRecv 0, parent := none, child := none, woken := false, result := none, mode := .await, once := false }] }
+
+example : watchedExample.schedule ≠ [] ∧ (∃ p, Watching watchedExample p) := by
+  refine ⟨by simp [watchedExample], 0, { busy := true, busyLock := none, mailbox := 1, hungUp := false, exited := false }, 0, rfl, rfl, ?_, ?_⟩
+  · simp [State.po, State.pcAt, Pc.poolOf, watchedExample]
+  · simp [State.cl, State.pcAt, Pc.cls, PCls.gave, watchedExample]
+
+/-- each pool thread is one activity, the threads of the vector are alive and have an open channel, and the vector lists
+no thread twice -/
+theorem pool_threads_are_accounted_for {s : State} (hr : ReachableNZ s) :
+    (∀ a b p, s.po a = some p → s.po b = some p → a = b) ∧ (∀ p, p ∈ s.threadsVec → ∃ w, s.po w = some p) ∧
+    (∀ p, p ∈ s.threadsVec → ∃ pt, s.pthreads[p]? = some pt ∧ pt.hungUp = false) ∧ s.threadsVec.Nodup :=
+  let h := watchInv_reachable hr
+  ⟨h.po.uniq, h.thr.live, h.thr.hv, h.thr.nodup⟩
+
+/-- the busy flag of a pool thread and the lock of the threads vector are held by the activity whose program counter says so -/
+theorem pool_locks_have_their_holders {s : State} (hr : ReachableNZ s) :
+    (∀ b, (s.cl b).tlHeld = true → s.threadsLock = some b) ∧ (∀ b p, holdsBusy s b p → s.bl p = some b) :=
+  let h := watchInv_reachable hr
+  ⟨h.tl, h.bl.own⟩
 
 end Desync.C03
